@@ -11,6 +11,7 @@ EXPLANATION = (
     "order_compare. Not decided: the comparisons inside one kind (large integers against floats, NaN, strings that look like temporals, lists, "
     "maps), transitivity, stability of the sort and the exact SKIP/LIMIT positions — all value-level."
     " C20.5: (Int, Int) ends in the exact i64 comparison and (Bool, Bool) in the bool comparison."
+    " C20.6: in parse_order_by the direction stored in an item is assigned on every path of the current loop iteration."
 )
 
 VAL = "nervusdb_query::executor::core_types::Value"
